@@ -381,7 +381,7 @@ package segment
 //@   requires r.rf != nil
 //@   alloc_bound[C11.readframe-alloc] MaxEntrySize
 //@   ensures[C15.readframe-ok] result2 == nil ==> result1 != nil && len(result1.Bs) == int(result0.len)
-//@   ensures[C15.readframe-payload] result2 == nil && offset <= 0xfffffff0 ==> eqbytes(result1.Bs, 0, r.rf.data, int(offset) + 8, int(result0.len))
+//@   ensures[C15.readframe-payload,C12.readframe-payload,C05.readframe-payload] result2 == nil && offset <= 0xfffffff0 ==> eqbytes(result1.Bs, 0, r.rf.data, int(offset) + 8, int(result0.len))
 //@   ensures[C15.readframe-header] result2 == nil ==> (result0.typ == FrameEntry || result0.typ == FrameIndex) ==> result0.typ == r.rf.data[int(offset)] && result0.len == LE32(r.rf.data, int(offset) + 4)
 //@   ensures[C11.readframe-bounded] result2 == nil ==> result0.len <= MaxEntrySize
 //@   ensures[C15.too-big-only-above-max] errors.Is(result2, types.ErrCorrupt) && result0.typ != 0 ==> result0.len > MaxEntrySize
